@@ -23,7 +23,7 @@ mod imp {
     // harness down.  Reads run in a worker thread; the allocator charges the worker's allocations
     // to a per-thread budget and parks the thread for good once the budget is exceeded.
     // ------------------------------------------------------------------
-    const BUDGET: usize = 8 << 20;
+    const BUDGET: usize = 1 << 20;
     thread_local! {
         static WORKER: Cell<bool> = const { Cell::new(false) };
         static USED: Cell<usize> = const { Cell::new(0) };
@@ -89,6 +89,13 @@ mod imp {
 
     /// Ok(v) | Err(panic class); class 7 = unbounded allocation / no termination
     fn guarded<T: Send + 'static>(f: impl FnOnce() -> T + Send + 'static) -> Result<T, I> {
+        // protobuf::Error captures a resolved Backtrace; the first capture loads the symbol tables (large,
+        // cached process-wide).  Do it once on the main thread so that it is not charged to a worker.
+        static WARM: std::sync::Once = std::sync::Once::new();
+        WARM.call_once(|| {
+            let mut empty: &[u8] = &[];
+            let _ = empty.read_varint();
+        });
         let (tx, rx) = std::sync::mpsc::channel();
         TRIPPED.store(false, Ordering::SeqCst);
         let h = std::thread::Builder::new()
@@ -108,7 +115,7 @@ mod imp {
                     return r;
                 }
                 Err(std::sync::mpsc::RecvTimeoutError::Timeout) => {
-                    if TRIPPED.load(Ordering::SeqCst) || t0.elapsed().as_secs() >= 20 {
+                    if TRIPPED.load(Ordering::SeqCst) || t0.elapsed().as_secs() >= 10 {
                         return Err(7);
                     }
                 }
